@@ -9,7 +9,7 @@
    _prepare_files_NP24 (exists? mkdir, open wb)   prep24   (SMkdir, STrunc)
    window loop, _split2shanks(ap) / (lf)          wins24 / wins21 (SAppendSh / SAppend21)
    _writemetadata_ap / _lf (write_meta_data)      metas24 / SWriteMeta
-   check_NP24 (sets check_completed)              SVerify
+   check_NP24 (clears, then sets check_completed) SCheckBegin, SVerify
    compress_NP24 / compress_NP21 with
      Reader.compress_file = mtscomp.compress
      to .cbin_tmp + .ch_tmp, two renames, unlink  comp_steps (SUnlink, SCompBegin, SCompEnd, SRenameCh, SRename)
@@ -73,7 +73,8 @@ Inductive step :=
   | SAppend21 (last : bool)               (* _split2shanks(chunk, "lf") of an NP2.1 run *)
   | SWriteMeta (o : owner)                (* spikeglx.write_meta_data (stat()s the data file first) *)
   | SCorrupt (p : path)                   (* adversary (harness): flips bytes of p before verification *)
-  | SVerify (n : nat)                     (* check_NP24 *)
+  | SCheckBegin                           (* check_NP24 entered: self.check_completed = False *)
+  | SVerify (n : nat)                     (* check_NP24: Readers on every shank ap file, comparison *)
   | SUnlink (p : path) (missing_ok : bool)
   | SCompBegin (o : owner)                (* mtscomp.compress: open(.cbin_tmp, "wb") *)
   | SCompEnd (o : owner)                  (* ... all chunks written, .ch_tmp written, check passed *)
@@ -90,8 +91,10 @@ Definition dir_ok (fs : fsys) (p : path) : bool :=
   | _ => true
   end.
 
+(* check_NP24 opens a spikeglx.Reader on every shank ap.bin (needs its .meta) and compares *)
 Definition all_ap_complete (fs : fsys) (n : nat) : bool :=
-  forallb (fun k => complete fs (PFile (Shank k Ap) FBin)) (seq 0 n).
+  forallb (fun k => complete fs (PFile (Shank k Ap) FBin) && complete fs (PFile (Shank k Ap) FMeta))
+          (seq 0 n).
 
 Definition unlink (rs : rstate) (p : path) (missing_ok : bool) : res :=
   if present (r_fs rs) p then Ok (mkR (upd (r_fs rs) p Absent) (r_checked rs))
@@ -114,6 +117,7 @@ Definition step_sem (s : step) (rs : rstate) : res :=
       if present fs (PFile o FBin) then Ok (mkR (upd fs (PFile o FMeta) Complete) ck)
       else Err EFileNotFound
   | SCorrupt p => if present fs p then Ok (mkR (upd fs p Partial) ck) else Ok rs
+  | SCheckBegin => Ok (mkR fs false)
   | SVerify n => if all_ap_complete fs n then Ok (mkR fs true) else Err EAssertion
   | SUnlink p mok => unlink rs p mok
   | SCompBegin o =>
@@ -191,7 +195,7 @@ Definition metas24 (n : nat) : list step :=
 
 Definition verify24 (n : nat) (corrupt : option nat) : list step :=
   match corrupt with Some k => [SCorrupt (PFile (Shank k Ap) FBin)] | None => [] end
-  ++ [SVerify n].
+  ++ [SCheckBegin; SVerify n].
 
 (* compress_NP24 body for one file: if overwrite: cbin.unlink(missing_ok=True);
    Reader(bin).compress_file(); bin.unlink() *)
@@ -331,20 +335,19 @@ Definition init_fs (compressed : bool) : fsys :=
 (* ======================================================================== *)
 (* Several method calls on ONE converter object                                 *)
 (* ======================================================================== *)
-(* What the object remembers between calls:
+(* What the object remembers between calls (code after 899cbec, 8b318aa, 8925238):
      ob_opts     post_check / delete_original / compress (plain attributes, the user may set them)
-     ob_checked  check_completed: set False by init_params only, set True at the end of
-                 check_NP24 — never reset by process(), by a failing check_NP24 or by anything else
-     ob_tf       form of self.ap_file (.bin, or .cbin once compress_NP21 has replaced it)
+     ob_checked  check_completed: False after init_params, cleared at the start of every
+                 check_NP24 and of every NP2.4 run (just before _prepare_files_NP24), set True at
+                 the end of a successful check_NP24
+     ob_tf       form of self.ap_file (.bin, or .cbin once compress_NP21 has replaced it; the
+                 reader is reopened with sort=False, like the constructor's)
      ob_fullbin  self.shank_info lists every shank and every ap entry is still the .bin
                  (what a direct check_NP24() needs; anything else is left unspecified)
      ob_closed   self.sr has been closed and not reopened: delete_NP24 past its guard, or
-                 compress_NP21 interrupted between sr.close() and ap_file.unlink()
-     ob_sorted   compress_NP21 has replaced self.sr by spikeglx.Reader(self.ap_file) — sort=True by
-                 default, whereas the constructor used sort=False: from then on the object reads the
-                 channels in geometry order and the lf file it writes no longer has the expected bytes *)
+                 compress_NP21 interrupted between sr.close() and ap_file.unlink() *)
 Record obj := mkObj { ob_opts : opts; ob_checked : bool; ob_tf : fkind;
-                      ob_fullbin : bool; ob_closed : bool; ob_sorted : bool }.
+                      ob_fullbin : bool; ob_closed : bool }.
 
 Inductive call :=
   | CProcess (ow : bool) (crash corrupt : option nat)   (* obj.process(overwrite=ow) *)
@@ -358,13 +361,6 @@ Definition is_ap_bin_unlink (s : step) : bool :=
   match s with SUnlink (PFile (Shank _ Ap) FBin) false => true | _ => false end.
 Definition is_rename_orig (s : step) : bool :=
   match s with SRename Orig => true | _ => false end.
-
-(* plan21 for an object whose reader returns the channels in another order: same steps, but the
-   lf file never gets the expected bytes *)
-Definition plan21_sorted (w : nat) (o : opts) (ow : bool) (tf : fkind) (fs : fsys) : list step :=
-  if already21 ow fs then []
-  else ([STrunc (PFile Lf21 FBin)] ++ map (fun _ => SAppend21 false) (seq 0 w) ++ [SWriteMeta Lf21])
-       ++ (if o_comp o then origcomp21 tf ++ comp_steps ow Lf21 else []).
 
 (* the steps of one call, its status when it returns, the already_exists value;
    None = a call this model does not specify *)
@@ -384,7 +380,6 @@ Definition call_plan (kd : kind) (n w : nat) (ob : obj) (fs : fsys) (c : call)
           let al := already21 ow fs in
           Some (if ob_closed ob
                 then (if al then [] else [STrunc (PFile Lf21 FBin); SFail (ob_tf ob)])
-                else if ob_sorted ob then plan21_sorted w (ob_opts ob) ow (ob_tf ob) fs
                 else plan21 w (ob_opts ob) ow (ob_tf ob) fs,
                 if al then 0%Z else 1%Z, if al then 1%Z else 0%Z)
       end
@@ -407,13 +402,29 @@ Definition call_crash (c : call) : option nat :=
   | CSetOpts _ => None
   end.
 
+Definition is_process (c : call) : bool := match c with CProcess _ _ _ => true | _ => false end.
+
+(* process() begins with: if not Path(self.ap_file).exists(): raise FileNotFoundError *)
+Definition refused (ob : obj) (fs : fsys) (c : call) : bool :=
+  is_process c && negb (present fs (PFile Orig (ob_tf ob))).
+
+(* the flag the call's steps start from: _process_NP24 clears check_completed before
+   _prepare_files_NP24 (before any site call) *)
+Definition start_flag (kd : kind) (ob : obj) (c : call) : bool :=
+  match c, kd with
+  | CProcess _ _ _, NP24 => false
+  | _, _ => ob_checked ob
+  end.
+
 Definition obj_call (kd : kind) (n w : nat) (ob : obj) (fs : fsys) (c : call) : obj * runout :=
+  if refused ob fs c then (ob, mkOut fs (Raised EFileNotFound) (ob_checked ob) 2 false []) else
   match call_plan kd n w ob fs c with
-  | None => (ob, noop fs (Raised EUnspecified) false)
+  | None => (ob, mkOut fs (Raised EUnspecified) (ob_checked ob) 2 false [])
   | Some (plan, st, al) =>
       let pl := match call_crash c with Some k => firstn k plan | None => plan end in
-      let '(rs', e) := exec pl (mkR fs (ob_checked ob)) in
-      let executed := firstn (nexec pl (mkR fs (ob_checked ob))) pl in
+      let rs0 := mkR fs (start_flag kd ob c) in
+      let '(rs', e) := exec pl rs0 in
+      let executed := firstn (nexec pl rs0) pl in
       let oc := match e with
                 | Some e => Raised e
                 | None => if (length pl <? length plan)%nat then Raised ECrash else Status st
@@ -440,10 +451,7 @@ Definition obj_call (kd : kind) (n w : nat) (ob : obj) (fs : fsys) (c : call) : 
                   && negb (existsb (step_eqb_unlink (PFile Orig FBin)) executed)
         | NP1 => false
         end in
-      (mkObj opts' (r_checked rs') tf' fullbin' closed'
-             (ob_sorted ob || match kd with
-                              | NP21 => existsb (step_eqb_unlink (PFile Orig FBin)) executed
-                              | _ => false end),
+      (mkObj opts' (r_checked rs') tf' fullbin' closed',
        mkOut fs' oc (r_checked rs')
              (match oc with Status _ => al | Raised _ => 2%Z end) false executed)
   end.
@@ -460,14 +468,6 @@ Fixpoint obj_after (kd : kind) (n w : nat) (ob : obj) (fs : fsys) (cs : list cal
   | c :: cs' => let '(ob', o) := obj_call kd n w ob fs c in obj_after kd n w ob' (out_fs o) cs'
   end.
 
-(* every step executed by the calls, in order *)
-Fixpoint obj_steps (kd : kind) (n w : nat) (ob : obj) (fs : fsys) (cs : list call) : list step :=
-  match cs with
-  | [] => []
-  | c :: cs' => let '(ob', o) := obj_call kd n w ob fs c in
-                out_trace o ++ obj_steps kd n w ob' (out_fs o) cs'
-  end.
-
 (* NP2Converter(ap_file, post_check, delete_original, compress) on the .bin or the .cbin *)
 Definition new_obj (o : opts) (compressed : bool) : obj :=
-  mkObj o false (if compressed then FCbin else FBin) false false false.
+  mkObj o false (if compressed then FCbin else FBin) false false.
